@@ -52,9 +52,9 @@ var externals = map[string]ExtInfo{
 	"bytes.NewReader":                                  {Known: true, Note: "the reader only reads the slice"},
 	"archive/zip.NewReader":                            pure(),
 	"(*archive/zip.File).Open":                         pure(),
-	"encoding/csv.NewReader":                           pure(),
-	"golang.org/x/text/transform.NewReader":            pure(),
-	"golang.org/x/text/encoding/unicode.BOMOverride":   pure(),
+	"encoding/csv.NewReader":                           {Known: true, Aliases: []int{0}, Note: "the csv reader keeps (and later reads from) the reader it is given"},
+	"golang.org/x/text/transform.NewReader":            {Known: true, Writes: []int{1}, Aliases: []int{0, 1}, Note: "resets the transformer and keeps it: every later Read drives (mutates) it"},
+	"golang.org/x/text/encoding/unicode.BOMOverride":   {Known: true, Aliases: []int{0}, Note: "the override wraps (keeps) the fallback transformer"},
 	"(golang.org/x/text/encoding.Encoding).NewDecoder": pure(),
 	"(os.DirEntry).Name":                               pure(),
 	"(*strings.Builder).String":                        pure(),
